@@ -48,6 +48,9 @@ struct SConn {
 	std::string in;				// response bytes received
 	int port = 0;
 	size_t in_highwater = 0;
+	int owed = -1;	// first valid message that was not delivered although everything before it was
+	bool was_reset = false;	// the server closed with unread input: the network may have dropped the tail of what it wrote
+	std::vector<std::pair<h9::Msg, bool>> msgs;	// reference reading of the stream: (message, was it delivered to the callback)
 };
 
 // client side: a request made through the library
@@ -65,7 +68,12 @@ struct CReq {
 	bool submitted = false;
 };
 // client side: a scripted server connection accepted from the library
-struct SrvConn { vk::Endpoint *ep = nullptr; std::string in; bool open = true; int lconn = 0; };
+struct SrvConn {
+	vk::Endpoint *ep = nullptr; std::string in; bool open = true; int lconn = 0;
+	std::string out;		// every response byte the scripted server sent on this connection
+	bool fin = false, rst = false;	// the scripted server ended the connection after those bytes (orderly / reset)
+	std::vector<int> reqs;		// requests read here, in order (index into creqs, -1 if the target is not one of ours)
+};
 struct CConn {
 	struct evhttp_connection *evcon = nullptr;
 	vk::Endpoint *listener = nullptr;
@@ -84,9 +92,11 @@ struct Run {
 	struct evhttp *http = nullptr;
 	SConn sc[NCONN];
 	std::deque<Recipe> recipes;
+	std::map<std::pair<int, std::string>, Recipe> chosen;
 	size_t max_headers = 0, max_body = 0;
 	bool stalled = false;
-	int delivered_total = 0, compared = 0, limit_hits = 0, responses_parsed = 0;
+	int delivered_total = 0, compared = 0, limit_hits = 0, responses_parsed = 0, client_compared = 0;
+	bool long_stall = false;	// the harness let a second or more pass without running the loop: a timeout may be due together with the data
 	// client side
 	CConn cc[NCONN];
 	std::vector<CReq> creqs;
@@ -147,7 +157,11 @@ static void gen_cb(struct evhttp_request *req, void *) {
 	c.delivered.push_back(d);
 	R->delivered_total++;
 	Recipe rc;
-	if (!R->recipes.empty()) { rc = R->recipes.front(); R->recipes.pop_front(); }
+	// twins must be answered alike, or what follows on them legitimately differs: the first of a group to deliver a message picks the recipe
+	auto key = std::make_pair(c.twin_of >= 0 ? c.twin_of : ci, d.uri);
+	auto ch = R->chosen.find(key);
+	if (ch != R->chosen.end()) rc = ch->second;
+	else { if (!R->recipes.empty()) { rc = R->recipes.front(); R->recipes.pop_front(); } R->chosen[key] = rc; }
 	Reply rp; rp.r = rc; rp.method = d.method;
 	// headers the application adds; a refused header must not appear on the wire
 	Hdrs accepted;
@@ -187,8 +201,8 @@ static void sconn_connect(int ci) {
 	cb.on_connected = [ci](vk::Endpoint *e) { SConn &c = R->sc[ci]; c.open = true; c.connecting = false; c.port = vk::ep_local_port(e); send_more(ci, c.stream.size()); };
 	cb.on_connect_failed = [ci](vk::Endpoint *, int) { R->sc[ci].connecting = false; R->sc[ci].closed_by_server = true; };
 	cb.on_data = [ci](vk::Endpoint *, const std::string &d) { R->sc[ci].in += d; };
-	cb.on_eof = [ci](vk::Endpoint *e) { SConn &c = R->sc[ci]; c.closed_by_server = true; c.open = false; vk::ep_close(e); tr("client%d: server closed", ci); };
-	cb.on_reset = [ci](vk::Endpoint *) { SConn &c = R->sc[ci]; c.closed_by_server = true; c.open = false; tr("client%d: reset", ci); };
+	cb.on_eof = [ci](vk::Endpoint *e) { SConn &c = R->sc[ci]; c.closed_by_server = true; c.open = false; vk::ep_close(e); tr("client%d: server closed after %zu bytes: ..%s", ci, c.in.size(), esc(c.in.size() > 200 ? c.in.substr(c.in.size() - 200) : c.in, 400).c_str()); };
+	cb.on_reset = [ci](vk::Endpoint *) { SConn &c = R->sc[ci]; c.closed_by_server = true; c.was_reset = true; c.open = false; tr("client%d: reset", ci); };
 	c.connecting = true;
 	c.ep = vk::ep_connect((sockaddr *)&sa, sizeof sa, cb);
 }
@@ -250,43 +264,71 @@ static std::string make_request(int shape, int64_t p, int idx) {
 	return m + " " + target + " " + ver + "\r\n" + hdr + "\r\n" + body;
 }
 
+static bool known_method(const std::string &m) { static const char *const k[] = {"GET", "POST", "HEAD", "PUT", "DELETE", "OPTIONS", "TRACE", "CONNECT", "PATCH", "PROPFIND", "PROPPATCH", "MKCOL", "LOCK", "UNLOCK", "COPY", "MOVE"}; for (auto x : k) if (m == x) return true; return false; }
+
 static void check_server_conn(int ci) {
 	SConn &c = R->sc[ci];
 	if (c.stream.empty()) return;
 	bool limits = R->max_headers || R->max_body;
-	// reference reading of everything that was sent
-	size_t pos = 0, i = 0;
-	for (; pos < c.sent; i++) {
-		h9::Msg m = h9::parse_request(c.stream.substr(0, c.sent), pos);
+	// reference reading of everything that was sent; every message carries its stream offset in its target ("/r<offset>"),
+	// which ties a delivered request to the message it came from
+	std::string sent = c.stream.substr(0, c.sent);
+	size_t pos = 0, next_delivered = 0;
+	bool must_deliver = true;	// false once a message the server was free to refuse went undelivered (the connection may have ended there)
+	c.msgs.clear();
+	c.owed = -1;
+	std::set<size_t> claimed;
+	while (pos < sent.size()) {
+		h9::Msg m = h9::parse_request(sent, pos);
 		if (m.v == h9::INCOMPLETE) break;
-		bool have = i < c.delivered.size();
-		if (m.v == h9::REJECT) {
-			if (have) V("C23", "C23.rejectable-message-delivered", "connection %d, message %zu: %s (RFC 9112: must be rejected), yet the callback got '%s %s' with a %zu-byte body", ci, i, m.why.c_str(), c.delivered[i].method.c_str(), esc(c.delivered[i].uri, 30).c_str(), c.delivered[i].body.size());
-			return;
+		if (m.v != h9::REJECT && !known_method(m.method)) h9::weaken(m, h9::EITHER, "a method this server does not implement");
+		size_t i = c.msgs.size();
+		// the delivered request made from this message, if any
+		int di = -1;
+		for (size_t k = 0; k < c.delivered.size(); k++) if (!claimed.count(k) && c.delivered[k].uri == m.target && !m.target.empty()) { di = (int)k; break; }
+		c.msgs.push_back({m, di >= 0});
+		if (di >= 0) {
+			claimed.insert((size_t)di);
+			if ((size_t)di < next_delivered) { V("C23", "C23.order", "connection %d: message %zu was delivered before an earlier message of the stream", ci, i); return; }
+			next_delivered = (size_t)di + 1;
 		}
-		// limits: a message beyond them must not be delivered; one within them is judged as usual
+		if (m.v == h9::REJECT) {
+			if (di >= 0) V("C23", "C23.rejectable-message-delivered", "connection %d, message %zu: %s (RFC 9112: must be rejected), yet the callback got '%s %s' with a %zu-byte body", ci, i, m.why.c_str(), c.delivered[di].method.c_str(), esc(c.delivered[di].uri, 30).c_str(), c.delivered[di].body.size());
+			break;
+		}
 		bool over = (R->max_headers && m.header_bytes > R->max_headers) || (R->max_body && m.body.size() > R->max_body);
 		if (over) {
 			R->limit_hits++;
-			if (have) V("C25", "C25.oversized-message-delivered", "connection %d, message %zu: header section %zu bytes (limit %zu), body %zu bytes (limit %zu): delivered to the callback", ci, i, m.header_bytes, R->max_headers, m.body.size(), R->max_body);
-			return;
+			if (di >= 0) V("C25", "C25.oversized-message-delivered", "connection %d, message %zu: header section %zu bytes (limit %zu), body %zu bytes (limit %zu): delivered to the callback", ci, i, m.header_bytes, R->max_headers, m.body.size(), R->max_body);
+			break;
 		}
-		if (!have) {
-			if (m.v == h9::ACCEPT && !limits && !c.closed_by_client && !G.capped)
-				V("C23", "C23.request-not-delivered", "connection %d, message %zu ('%s %s', %zu header fields, %zu-byte body) is a valid request and everything before it was delivered, yet the callback never ran for it", ci, i, m.method.c_str(), esc(m.target, 30).c_str(), m.headers.size(), m.body.size());
-			return;
+		if (di < 0) {
+			// a valid request after delivered ones: owed to the callback unless the server announced the end of the connection
+			// in an earlier response (judged in check_responses, once the responses are read)
+			if (m.v == h9::ACCEPT && must_deliver && !limits && !c.closed_by_client && !G.capped && c.owed < 0) c.owed = (int)i;
+			must_deliver = false;
+		} else {
+			const Delivered &d = c.delivered[di];
+			R->compared++;
+			std::string why;
+			bool same = d.method == m.method && d.uri == m.target && d.major == m.major && d.minor == m.minor && d.body == m.body;
+			if (!same) why = "got '" + d.method + " " + esc(d.uri, 30) + " HTTP/" + std::to_string(d.major) + "." + std::to_string(d.minor) + "' body " + std::to_string(d.body.size()) + " bytes; the stream says '" + m.method + " " + esc(m.target, 30) + " HTTP/" + std::to_string(m.major) + "." + std::to_string(m.minor) + "' body " + std::to_string(m.body.size()) + " bytes";
+			else {
+				same = hdrs_equal(d.headers, m.headers, &why);
+				if (!same && !m.trailers.empty()) { Hdrs all = m.headers; all.insert(all.end(), m.trailers.begin(), m.trailers.end()); std::string w2; if (hdrs_equal(d.headers, all, &w2)) same = true; }	// trailer fields merged into the header list: allowed
+			}
+			if (!same) { V("C23", "C23.request-differs", "connection %d, message %zu%s: %s", ci, i, m.v == h9::EITHER ? (" (" + m.why + ")").c_str() : "", why.c_str()); return; }
+			if ((size_t)di < c.replies.size() && c.replies[di].r.style % 3 == 1) must_deliver = false;	// evhttp_send_error() answers with Connection: close
+			if (m.method == "CONNECT") { probe("connect-delivered"); return; }	// after CONNECT the bytes belong to a tunnel, not to this parser
 		}
-		const Delivered &d = c.delivered[i];
-		R->compared++;
-		std::string why;
-		bool same = d.method == m.method && d.uri == m.target && d.major == m.major && d.minor == m.minor && d.body == m.body;
-		if (!same) why = "got '" + d.method + " " + esc(d.uri, 30) + " HTTP/" + std::to_string(d.major) + "." + std::to_string(d.minor) + "' body " + std::to_string(d.body.size()) + " bytes; the stream says '" + m.method + " " + esc(m.target, 30) + " HTTP/" + std::to_string(m.major) + "." + std::to_string(m.minor) + "' body " + std::to_string(m.body.size()) + " bytes";
-		else same = hdrs_equal(d.headers, m.headers, &why);
-		if (!same) { V("C23", "C23.request-differs", "connection %d, message %zu%s: %s", ci, i, m.v == h9::EITHER ? (" (" + m.why + ")").c_str() : "", why.c_str()); return; }
 		pos += m.consumed;
-		if (!m.keep_alive) { i++; break; }
+		if (!m.keep_alive) break;
 	}
-	if (c.delivered.size() > i && pos >= c.sent) V("C23", "C23.extra-request", "connection %d: %zu requests delivered, the stream holds %zu complete messages", ci, c.delivered.size(), i);
+	// a delivered request that no message of the stream accounts for: bytes of a body or of a rejected message read as a request
+	for (size_t k = 0; k < c.delivered.size(); k++) if (!claimed.count(k)) {
+		V("C23", "C23.extra-request", "connection %d: the callback got '%s %s' (%zu-byte body), which is none of the %zu messages the client sent", ci, c.delivered[k].method.c_str(), esc(c.delivered[k].uri, 40).c_str(), c.delivered[k].body.size(), c.msgs.size());
+		return;
+	}
 }
 
 static void check_twins() {
@@ -313,24 +355,52 @@ static void check_twins() {
 // C26: what the server wrote, read back by the reference response parser
 static void check_responses(int ci) {
 	SConn &c = R->sc[ci];
-	size_t pos = 0;
-	for (size_t k = 0; k < c.replies.size() && pos < c.in.size(); k++) {
-		const Reply &rp = c.replies[k];
-		h9::Msg m = h9::parse_response(c.in, pos, rp.method, c.closed_by_server);
+	size_t pos = 0, k = 0;	// k: next reply made by the callback
+	size_t answered = 0;	// responses read in full
+	bool said_close = false;	// some response so far announced that the connection ends with it
+	struct Owed { SConn &c; int ci; size_t &answered; bool &said_close; ~Owed() {
+		if (c.owed < 0 || stop()) return;
+		if (said_close || answered < (size_t)c.owed || c.was_reset) return;	// the server ended the connection in the open, or never got that far
+		const h9::Msg &m = c.msgs[c.owed].first;
+		V("C23", "C23.request-not-delivered", "connection %d, message %d ('%s %s', %zu header fields, %zu-byte body) is a valid request, everything before it was delivered and answered without 'Connection: close', yet the callback never ran for it", ci, c.owed, m.method.c_str(), esc(m.target, 30).c_str(), m.headers.size(), m.body.size());
+	} } owed_guard{c, ci, answered, said_close};
+	if (!c.in.empty()) tr("client%d received %zu bytes: %s", ci, c.in.size(), esc(c.in, 400).c_str());
+	// one response per message of the stream, in order: the callback's for a delivered message, the library's own otherwise
+	for (size_t i = 0; i < c.msgs.size() && pos < c.in.size(); i++) {
+		bool mine = c.msgs[i].second;
+		if (mine && k >= c.replies.size()) return;
+		std::string method = mine ? c.replies[k].method : c.msgs[i].first.method;
+		h9::Msg m = h9::parse_response(c.in, pos, method, c.closed_by_server && !c.was_reset);
 		if (m.v == h9::INCOMPLETE) return;
 		R->responses_parsed++;
-		if (m.v == h9::REJECT) { V("C26", "C26.response-unparsable", "connection %d, response %zu does not parse (%s): %s", ci, k, m.why.c_str(), esc(c.in.substr(pos), 80).c_str()); return; }
-		if (m.status != rp.r.status) { V("C26", "C26.status", "connection %d, response %zu: status %d on the wire, the callback sent %d", ci, k, m.status, rp.r.status); return; }
-		if (!rp.r.reason.empty() && m.reason != rp.r.reason) { V("C26", "C26.reason", "connection %d, response %zu: reason '%s' on the wire, the callback gave '%s'", ci, k, esc(m.reason).c_str(), esc(rp.r.reason).c_str()); return; }
+		if (m.v == h9::REJECT) { V("C26", "C26.response-unparsable", "connection %d, response to message %zu does not parse (%s): %s", ci, i, m.why.c_str(), esc(c.in.substr(pos), 80).c_str()); return; }
+		{	// the library's own answer to Expect: 100-continue comes before the final response, once
+			bool expects = false;
+			for (auto &h : c.msgs[i].first.headers) if (h9::lower(h.first) == "expect" && h9::lower(h.second) == "100-continue") expects = true;
+			if (m.status == 100 && m.headers.empty() && expects && !c.msgs[i].first.interim_seen) { c.msgs[i].first.interim_seen = true; pos += m.consumed; i--; probe("interim-100-continue"); continue; }
+		}
+		if (!m.keep_alive || m.close_delimited || m.tunnel) said_close = true;
+		answered = i + 1;
+		if (!mine) { pos += m.consumed; probe("library-made-response"); if (m.close_delimited || m.tunnel) break; continue; }
+		const Reply &rp = c.replies[k++];
+		if (m.status != rp.r.status) { V("C26", "C26.status", "connection %d, response to message %zu: status %d on the wire, the callback sent %d", ci, i, m.status, rp.r.status); return; }
+		bool reason_has_break = rp.r.reason.find_first_of("\r\n") != std::string::npos;	// not a reason phrase: the library substitutes its own; what matters is that nothing of it shows up as a header (checked below)
+		if (!rp.r.reason.empty() && !reason_has_break && m.reason != rp.r.reason) { V("C26", "C26.reason", "connection %d, response to message %zu: reason '%s' on the wire, the callback gave '%s'", ci, i, esc(m.reason).c_str(), esc(rp.r.reason).c_str()); return; }
 		// every header the application added appears once with its value; the rest is the documented automatic set
 		static const char *const autos[] = {"date", "content-length", "transfer-encoding", "connection", "content-type", "keep-alive"};
 		Hdrs rest;
-		for (auto &h : m.headers) { bool a = false; for (auto n : autos) if (h9::lower(h.first) == n) a = true; bool mine = false; for (auto &w : rp.r.headers) if (h9::lower(w.first) == h9::lower(h.first)) mine = true; if (!a || mine) rest.push_back(h); }
+		for (auto &h : m.headers) { bool a = false; for (auto n : autos) if (h9::lower(h.first) == n) a = true; bool own = false; for (auto &w : rp.r.headers) if (h9::lower(w.first) == h9::lower(h.first)) own = true; if (!a || own) rest.push_back(h); }
 		std::string why;
-		if (!hdrs_equal(rest, rp.r.headers, &why)) { V("C26", "C26.headers", "connection %d, response %zu: header fields on the wire differ from what the callback added: %s", ci, k, why.c_str()); return; }
+		bool hdr_ok = hdrs_equal(rest, rp.r.headers, &why);
+		if (!hdr_ok && rp.r.style % 3 == 1) {	// evhttp_send_error() builds the response afresh: the fields added before may be dropped, none may be invented
+			hdr_ok = true;
+			for (auto &h : rest) { bool known = false; for (auto n : autos) if (h9::lower(h.first) == n) known = true; for (auto &w : rp.r.headers) if (h9::lower(w.first) == h9::lower(h.first) && w.second == h.second) known = true; if (!known) hdr_ok = false; }
+		}
+		if (!hdr_ok) { V("C26", "C26.headers", "connection %d, response to message %zu: header fields on the wire differ from what the callback added: %s", ci, i, why.c_str()); return; }
 		bool nobody = rp.method == "HEAD" || (m.status >= 100 && m.status < 200) || m.status == 204 || m.status == 304;
-		if (rp.r.body != "\x01" && !nobody && m.body != rp.r.body) { V("C26", "C26.body", "connection %d, response %zu: body of %zu bytes on the wire, the callback supplied %zu bytes", ci, k, m.body.size(), rp.r.body.size()); return; }
-		if (nobody && !m.body.empty()) { V("C26", "C26.body-where-none-allowed", "connection %d, response %zu to %s with status %d carries a %zu-byte body", ci, k, rp.method.c_str(), m.status, m.body.size()); return; }
+		if (m.tunnel) { probe("connect-tunnel"); break; }	// what follows belongs to the tunnel, not to HTTP
+		if (rp.r.body != "\x01" && !nobody && m.body != rp.r.body) { V("C26", "C26.body", "connection %d, response to message %zu: body of %zu bytes on the wire, the callback supplied %zu bytes", ci, i, m.body.size(), rp.r.body.size()); return; }
+		if (nobody && !m.body.empty()) { V("C26", "C26.body-where-none-allowed", "connection %d, response to message %zu (%s, status %d) carries a %zu-byte body", ci, i, rp.method.c_str(), m.status, m.body.size()); return; }
 		pos += m.consumed;
 		if (m.close_delimited) break;
 	}
@@ -413,6 +483,7 @@ static void srv_on_data(int li, SrvConn *sc, const std::string &d) {
 		if (m.v == h9::REJECT) { V("C26", "C26.request-unparsable", "the library wrote a request that does not parse (%s): %s", m.why.c_str(), esc(sc->in, 80).c_str()); sc->in.clear(); break; }
 		sc->in.erase(0, m.consumed);
 		L.methods_seen.push_back(m.method);
+		sc->reqs.push_back(m.target.size() > 2 && m.target.compare(0, 2, "/c") == 0 ? atoi(m.target.c_str() + 2) : -1);
 		tr("srv%d request %s %s body=%zu", li, m.method.c_str(), esc(m.target, 30).c_str(), m.body.size());
 		if (L.responses.empty()) { probe("server-silent"); continue; }	// no script: the server stays silent (timeouts)
 		std::string resp = L.responses.front(); L.responses.pop_front();
@@ -423,6 +494,8 @@ static void srv_on_data(int li, SrvConn *sc, const std::string &d) {
 		for (size_t k = 1; k < part.size(); k++) if (mix(seed, L.resp_stream.size() + k) % (1 + seed % 7) == 0 && seed % 5 != 0) cuts.push_back(k);
 		if (!part.empty()) vk::ep_send_cut(sc->ep, part, cuts, 1000);
 		L.resp_stream += part;
+		sc->out += part;
+		if (mode.first >= 0) { if (mode.second & 1) sc->rst = true; else sc->fin = true; }
 		if (mode.first >= 0) { R->faults_during_request++; sc->open = false; if (mode.second & 1) vk::ep_reset(sc->ep); else { vk::ep_shutdown(sc->ep); vk::ep_close(sc->ep); } fault(mode.second & 1 ? "http.server-reset" : "http.server-close-at-byte"); break; }
 	}
 }
@@ -445,10 +518,80 @@ static void cconn_setup(int li, int twin_of) {
 	L.evcon = API(evhttp_connection_base_new(R->base, nullptr, "127.0.0.1", (ev_uint16_t)(8100 + li)));
 }
 
-// C24: what the completion callback got against the reference reading of what the scripted server sent
+// C24: what the completion callback got against the reference reading of what the scripted server sent.
+// The library never pipelines on a connection, so the responses on an accepted connection belong to the requests read
+// on it, in order; each starts where the reference says the previous one ended.
+struct Attempt { h9::Msg m; bool rst = false; bool indeterminate = false; };
+static h9::Msg ref_final_response(const std::string &s, size_t pos0, const std::string &method, bool eof) {
+	size_t pos = pos0;
+	for (int k = 0; k < 8; k++) {
+		h9::Msg m = h9::parse_response(s, pos, method, eof);
+		if (m.v == h9::INCOMPLETE || m.v == h9::REJECT) { m.consumed += pos - pos0; return m; }
+		if (m.status >= 100 && m.status < 200 && m.status != 101) { pos += m.consumed; continue; }	// interim responses precede the final one
+		m.consumed += pos - pos0;
+		return m;
+	}
+	h9::Msg m; m.v = h9::EITHER; m.why = "a long run of interim responses"; m.indeterminate = true; return m;
+}
+static bool response_equal(const CReq &q, const h9::Msg &m, bool prefix_ok, std::string *why) {
+	if (q.status != m.status) { *why = "status " + std::to_string(q.status) + " vs " + std::to_string(m.status); return false; }
+	std::string w;
+	bool same = hdrs_equal(q.headers, m.headers, &w);
+	if (!same && !m.trailers.empty()) { Hdrs all = m.headers; all.insert(all.end(), m.trailers.begin(), m.trailers.end()); std::string w2; if (hdrs_equal(q.headers, all, &w2)) same = true; }
+	if (!same) { *why = "header fields: " + w; return false; }
+	if (q.body != m.body && !(prefix_ok && m.body.compare(0, q.body.size(), q.body) == 0)) { *why = "body of " + std::to_string(q.body.size()) + " bytes vs " + std::to_string(m.body.size()) + " bytes in the stream"; return false; }
+	return true;
+}
 static void check_client_conn(int li) {
 	CConn &L = R->cc[li];
-	(void)L;
+	std::map<int, std::vector<Attempt>> att;
+	for (auto sc : L.accepted) {
+		size_t pos = 0;
+		bool lost = false;	// the reading of an earlier response on this connection did not end: nothing later can be placed
+		for (int ri : sc->reqs) {
+			if (ri < 0 || ri >= (int)R->creqs.size()) { lost = true; continue; }
+			Attempt a;
+			a.rst = sc->rst;
+			if (lost) { a.indeterminate = true; att[ri].push_back(a); continue; }
+			a.m = ref_final_response(sc->out, pos, R->creqs[ri].method, sc->fin);
+			if (a.m.indeterminate) a.indeterminate = true;
+			att[ri].push_back(a);
+			if ((a.m.v == h9::ACCEPT || a.m.v == h9::EITHER) && !a.m.close_delimited && !a.indeterminate) pos += a.m.consumed; else lost = true;
+		}
+	}
+	int64_t timeout_s = R->plan->c("timeout_s");
+	for (size_t i = 0; i < R->creqs.size() && !stop(); i++) {
+		const CReq &q = R->creqs[i];
+		if (q.conn != li || !q.submitted || q.cancelled || q.freed_with_conn || q.ncb != 1) continue;
+		auto it = att.find((int)i);
+		static const std::vector<Attempt> none;
+		const std::vector<Attempt> &as = it == att.end() ? none : it->second;
+		R->client_compared++;
+		if (q.got_response) {
+			bool ok = false, any_indet = false;
+			std::string why, w;
+			for (auto &a : as) {
+				if (a.indeterminate) { any_indet = true; continue; }
+				if (a.m.v != h9::ACCEPT && a.m.v != h9::EITHER) continue;
+				if (response_equal(q, a.m, a.rst && a.m.close_delimited, &w)) ok = true; else why = w;
+			}
+			if (ok || any_indet) { if (ok) probe("client-response-matches"); continue; }
+			if (as.empty()) { V("C24", "C24.response-from-nowhere", "request %zu (%s %s): the callback got status %d with a %zu-byte body, but the server never read that request", i, q.method.c_str(), q.uri.c_str(), q.status, q.body.size()); return; }
+			const Attempt &last = as.back();
+			if (last.m.v == h9::REJECT) V("C24", "C24.rejectable-response-accepted", "request %zu (%s %s): the response must be rejected (%s), yet the callback got status %d, %zu header fields and a %zu-byte body", i, q.method.c_str(), q.uri.c_str(), last.m.why.c_str(), q.status, q.headers.size(), q.body.size());
+			else if (last.m.v == h9::INCOMPLETE) V("C24", "C24.incomplete-response-accepted", "request %zu (%s %s): the response was never complete%s, yet the callback got status %d and a %zu-byte body", i, q.method.c_str(), q.uri.c_str(), last.m.close_delimited ? " (it ends when the server closes, which it did not)" : "", q.status, q.body.size());
+			else V("C24", "C24.response-differs", "request %zu (%s %s)%s: %s", i, q.method.c_str(), q.uri.c_str(), last.m.v == h9::EITHER ? (" (" + last.m.why + ")").c_str() : "", why.c_str());
+			return;
+		}
+		// a failure: not acceptable for a complete valid response that arrived in good time
+		if (as.empty()) continue;
+		const Attempt &last = as.back();
+		if (!last.indeterminate && !last.rst && last.m.v == h9::ACCEPT && (timeout_s == 0 || timeout_s >= 5) && !G.capped && !(q.errcode == (int)EVREQ_HTTP_TIMEOUT && R->long_stall)) {
+			V("C24", "C24.valid-response-failed", "request %zu (%s %s): the server sent a complete valid response (status %d, %zu header fields, %zu-byte body%s), the callback reported failure (error %d)", i, q.method.c_str(), q.uri.c_str(), last.m.status, last.m.headers.size(), last.m.body.size(), last.m.close_delimited ? ", ended by close" : "", q.errcode);
+			return;
+		}
+		probe("client-failure-allowed");
+	}
 }
 
 static void exec_op(const Op &op) {
@@ -507,12 +650,12 @@ static void exec_op(const Op &op) {
 			int r = event_base_loop(R->base, EVLOOP_ONCE | EVLOOP_NONBLOCK);
 			if (r < 0) break;
 			if (vk::events_pending()) vk::advance_running(std::max<int64_t>(0, std::min<int64_t>(vk::next_event_time() - G.now_ns, 50000000)));
-			else if (op.a[1]) vk::advance_running(std::min<int64_t>(op.a[1], 60000) * 1000000);
+			else if (op.a[1]) { if (op.a[1] >= 1000) R->long_stall = true; vk::advance_running(std::min<int64_t>(op.a[1], 60000) * 1000000); }
 			else break;
 		}
 		break;
 	}
-	case OP_ADVANCE: vk::advance_running(std::max<int64_t>(0, op.a[0]) * 1000000); break;
+	case OP_ADVANCE: if (op.a[0] >= 1000) R->long_stall = true; vk::advance_running(std::max<int64_t>(0, op.a[0]) * 1000000); break;
 	case OP_CLIENT_CLOSE: {
 		SConn &c = R->sc[op.a[0] % NCONN];
 		if (!c.open) break;
@@ -590,7 +733,7 @@ static void execute(const Plan &p) {
 	vk::net.lat_max_ns = p.c("lat_max_us", 100) * 1000;
 	vk::net.connect_lat_ns = p.c("connect_lat_us", 100) * 1000;
 	vk::net.sockbuf = (size_t)p.c("sockbuf", 65536);
-	vk::wait_cap = 40000;
+	vk::wait_cap = 600000;
 	static const struct { const char *k; vk::Site s; } sites[] = {
 		{"f_read_short", vk::S_READ_SHORT}, {"f_write_short", vk::S_WRITE_SHORT}, {"f_read_eagain", vk::S_READ_EAGAIN}, {"f_write_eagain", vk::S_WRITE_EAGAIN},
 	};
@@ -635,7 +778,7 @@ static void execute(const Plan &p) {
 		for (int s = 0; s < vk::S_NSITES; s++) vk::set_fault((vk::Site)s, 0);
 		if (!client_side) {
 			for (int t = 0; t < NCONN; t++) { SConn &c = run.sc[t]; if (!c.stream.empty() && !c.closed_by_client) { if (!c.open) sconn_connect(t); } }
-			for (int k = 0; k < 3000 && !stop() && !G.capped; k++) {
+			for (int k = 0; k < 200000 && !stop() && !G.capped; k++) {
 				for (int t = 0; t < NCONN; t++) if (run.sc[t].open) send_more(t, run.sc[t].stream.size());
 				event_base_loop(run.base, EVLOOP_NONBLOCK);
 				if (!vk::events_pending()) { bool more = false; for (int t = 0; t < NCONN; t++) if (run.sc[t].connecting) more = true; if (!more) break; }
@@ -649,7 +792,7 @@ static void execute(const Plan &p) {
 			// every request still open gets its outcome: the scripted servers stay as they are, time passes (timeouts fire)
 			auto open_reqs = [&]() { int n = 0; for (auto &q : run.creqs) if (q.submitted && q.ncb == 0 && !q.cancelled && !q.freed_with_conn) n++; return n; };
 			int64_t deadline = G.now_ns + 600 * NS;
-			for (int k = 0; k < 20000 && open_reqs() > 0 && !stop() && !G.capped && G.now_ns < deadline; k++) {
+			for (int k = 0; k < 300000 && open_reqs() > 0 && !stop() && !G.capped && G.now_ns < deadline; k++) {
 				event_base_loop(run.base, EVLOOP_NONBLOCK);
 				int64_t next = vk::next_event_time();
 				vk::advance_running(std::max<int64_t>(1000, std::min<int64_t>(next == INT64_MAX ? 1000000000 : next - G.now_ns, 1000000000)));
@@ -658,6 +801,7 @@ static void execute(const Plan &p) {
 			for (size_t i = 0; i < run.creqs.size() && !stop() && !G.capped; i++) {
 				CReq &q = run.creqs[i];
 				if (!q.submitted || q.cancelled || q.freed_with_conn) continue;
+				if (q.ncb == 0 && G.now_ns < deadline) { probe("settle-budget-exhausted"); continue; }	// the 600 seconds did not pass within the step budget: no verdict
 				if (q.ncb != 1) { V("C27", "C27.completion-count", "request %zu (%s %s on connection %d): %d completion callbacks after 600 virtual seconds with a 45-second default timeout (error callbacks: %d)", i, q.method.c_str(), q.uri.c_str(), q.conn, q.ncb, q.nerr); break; }
 			}
 			for (int i = 0; i < NCONN; i++) check_client_conn(i);
@@ -683,7 +827,7 @@ static void execute(const Plan &p) {
 		else if (prop == "C25") G.nontrivial = run.limit_hits > 0 || (run.compared > 0 && (run.max_headers || run.max_body));
 		else if (prop == "C26") G.nontrivial = run.responses_parsed > 0 || run.completed > 0;
 		else if (prop == "C27") G.nontrivial = run.completed > 0 || run.delivered_total > 0;
-		else if (prop == "C24") G.nontrivial = run.completed > 0;
+		else if (prop == "C24") G.nontrivial = run.client_compared > 0;
 		else G.nontrivial = run.delivered_total > 0 || run.completed > 0;
 	}
 	R = nullptr;
